@@ -452,7 +452,14 @@ func runUpload(id int, sc scenario, variant int, base string) (res result) {
 		db, reader = idb, idb
 		stop = func() { idb.Close() }
 	}
-	defer stop()
+	stopped := false
+	stopOnce := func() {
+		if !stopped {
+			stopped = true
+			stop()
+		}
+	}
+	defer stopOnce()
 	if err := reader.Set(ctx, "key", old); err != nil {
 		res.Status, res.Error = "error", "setup: "+err.Error()
 		return
@@ -570,6 +577,23 @@ func runUpload(id int, sc scenario, variant int, base string) (res result) {
 	// binding: what the specification says the client got
 	if (wErr == nil) != (sc.Client == "ok") {
 		res.Drift++
+	}
+	// "leaves no trace" also after Close and Open: what a failed write left in the store's records must not come to life
+	if sc.Kind != "reject_emptykey" {
+		stopOnce()
+		if rdb, oErr := inline.Open(ctx, cfg); oErr != nil {
+			return fail("reopen", fmt.Sprintf("the database does not open again after the upload: %v: %s", oErr, where))
+		} else {
+			got, gErr := rdb.Get(ctx, "key")
+			rdb.Close()
+			want, which := old, "its previous value"
+			if wErr == nil {
+				want, which = src, "the uploaded content"
+			}
+			if gErr != nil || !bytes.Equal(got, want) {
+				return fail("reopen", fmt.Sprintf("after Close and Open the key holds %d bytes (%v) instead of %s: %s", len(got), gErr, which, where))
+			}
+		}
 	}
 	return res
 }
